@@ -79,7 +79,8 @@ func (i ImportNames) TypeName(t types.Type) string {
 	case *types.Pointer:
 		return "*" + i.TypeName(typ.Elem())
 	case *types.Basic:
-		return typ.Name()
+		// String() rather than Name(): unsafe.Pointer is the one basic type with a qualifier.
+		return typ.String()
 	case *types.Named:
 		if typ.Obj().Pkg() == nil {
 			// Universe types such as "error" do not belong to any package.
